@@ -621,6 +621,25 @@ def sweep_planar_collinear(rep, pp, quick):
                 cls = "the only off-line point is the last one" if off_last else ("collinear" if exact else "an interior point of the list is off the line")
                 rep.violation("points_are_collinear: exact answer", f"{len(pts)} points, {cls}",
                               inputs={"fn": "points_are_collinear", "points": pts}, detail=f"{pts}: exact {exact}, returned {got}")
+        # point sets of large extent: p0, p0 + d, p0 + L d, p0 + 3 L d (+ e), L = 100, 1000, d a lattice direction, e a unit vector
+        # perpendicular to d: with e the last point is off the line by one unit, i.e. by 1 / (3 L |d|) >= 1e-4 of the extent >> tol = 1e-5
+        dirs = [d for d in P3 if any(d) and d > tuple(-x for x in d)]
+        for d in (dirs[::3] if quick else dirs):
+            for L in (100, 1000):
+                e = next(v for v in ((1, 0, 0), (0, 1, 0), (0, 0, 1)) if dot(v, d) == 0) if any(x == 0 for x in d) else None
+                if e is None:
+                    e = (d[1], -d[0], 0)  # perpendicular lattice vector for directions without a zero component
+                for p0 in ((0, 0, 0), (7, -3, 2)):
+                    base = [p0, tuple(p0[i] + d[i] for i in range(3)), tuple(p0[i] + L * d[i] for i in range(3))]
+                    far = tuple(p0[i] + 3 * L * d[i] for i in range(3))
+                    for pts, cls in ((base + [far], "collinear, large extent"),
+                                     (base + [tuple(far[i] + e[i] for i in range(3))], "last point one unit off a line of large extent")):
+                        exact = _all_collinear(pts)
+                        got = bool(gp.points_are_collinear(_arr(pts)))
+                        sw.case(key=("far", tuple(pts)), nontrivial=True, sample={"points": pts, "exact_collinear": exact})
+                        if got != exact:
+                            rep.violation("points_are_collinear: exact answer", f"{len(pts)} points, {cls}",
+                                          inputs={"fn": "points_are_collinear", "points": pts}, detail=f"{pts}: exact {exact}, returned {got}")
 
 
 # ============================================================================= ordering sweeps
